@@ -93,6 +93,10 @@ OkLike(r)   == (r.t = "simple" /\ r.s = "OK") \/ (r.t = "bulk" /\ r.s = "OK")
 SA(r, j) == r.t \in {"bulk", "simple"} /\ IsStr(j) /\ r.u = j.s
 \* a number
 NA(r, j) == IsNum(j) /\ ((IsBulk(r) /\ r.n # "" /\ r.n = j.n) \/ (IsInt(r) /\ r.s = j.n))
+\* a coordinate or distance: NaN and the infinities have no JSON number; the JSON reply shows the text of
+\* the RESP reply as a string, or null (GeoJSON members)
+NonFinite(r) == IsBulk(r) /\ r.n \in {"NaN", "+Inf", "-Inf"}
+CA(r, j) == NA(r, j) \/ (NonFinite(r) /\ ((IsStr(j) /\ j.s = r.s) \/ j.t = "null"))
 \* an integer
 IA(r, j) == IsNum(j) /\ IsInt(r) /\ r.s = j.n
 \* 0/1 versus false/true
@@ -130,9 +134,9 @@ PA(r, j) ==
   /\ IsArr(r) /\ j.t = "obj"
   /\ \/ Len(r.a) = 2 /\ j.k = <<"lat", "lon">>
      \/ Len(r.a) = 3 /\ j.k = <<"lat", "lon", "z">>
-  /\ \A e \in 1..Len(r.a) : NA(r.a[e], j.a[e])
+  /\ \A e \in 1..Len(r.a) : CA(r.a[e], j.a[e])
 \* bounds: [[minlat, minlon], [maxlat, maxlon]] versus {"sw":{"lat","lon"},"ne":{"lat","lon"}}
-LatLon(r, j) == IsArr(r) /\ Len(r.a) = 2 /\ j.t = "obj" /\ j.k = <<"lat", "lon">> /\ NA(r.a[1], j.a[1]) /\ NA(r.a[2], j.a[2])
+LatLon(r, j) == IsArr(r) /\ Len(r.a) = 2 /\ j.t = "obj" /\ j.k = <<"lat", "lon">> /\ CA(r.a[1], j.a[1]) /\ CA(r.a[2], j.a[2])
 BoundsA(r, j) ==
   /\ IsArr(r) /\ Len(r.a) = 2 /\ j.t = "obj" /\ j.k = <<"sw", "ne">>
   /\ LatLon(r.a[1], j.a[1]) /\ LatLon(r.a[2], j.a[2])
@@ -188,7 +192,7 @@ ItemA(kind, r, j, names) ==
   IF kind = "id"
   THEN \/ SA(r, j)
        \/ /\ IsArr(r) /\ Len(r.a) = 2 /\ j.t = "obj" /\ j.k = <<"id", "distance">>
-          /\ SA(r.a[1], j.a[1]) /\ NA(r.a[2], j.a[2])
+          /\ SA(r.a[1], j.a[1]) /\ CA(r.a[2], j.a[2])
   ELSE LET hasd == HasM(j, "distance")
            hasf == HasM(j, "fields")
            vals == IF hasf THEN M(j, "fields").a ELSE <<>>
@@ -201,7 +205,7 @@ ItemA(kind, r, j, names) ==
           /\ SA(r.a[1], M(j, "id"))
           /\ KindA(kind, r.a[2], M(j, kind))
           /\ (Len(nz) > 0 => ItemFields(r.a[3], names, vals))
-          /\ (hasd => NA(r.a[want], M(j, "distance")))
+          /\ (hasd => CA(r.a[want], M(j, "distance")))
 
 SearchA(r, d) ==
   LET p == Payload(d)
@@ -260,8 +264,9 @@ LuaA(r, j) ==
 
 -----------------------------------------------------------------------------
 (* Statistics                                                               *)
-\* values of SERVER that are the same on two servers with the same history
-StableStat == {"aof_size", "num_collections", "num_hooks", "num_points", "num_objects", "num_strings", "in_memory_size",
+\* values of SERVER that are the same on two servers with the same history (not the size of the log: a
+\* rewrite stores the remaining seconds of every deadline as they are at that instant on that server)
+StableStat == {"num_collections", "num_hooks", "num_points", "num_objects", "num_strings", "in_memory_size",
                "http_transport", "read_only", "following", "caught_up", "caught_up_once"}
 StatMap(r, j) ==
   /\ IsArr(r) /\ j.t = "obj" /\ Len(r.a) = 2 * Len(j.k)
@@ -276,14 +281,15 @@ RoleA(r, j) ==
   /\ IsArr(r) /\ j.t = "obj" /\ HasM(j, "role") /\ Len(r.a) >= 1 /\ SA(r.a[1], M(j, "role"))
   /\ IF M(j, "role").s = "master"
      THEN /\ j.k = <<"role", "offset", "slaves">> /\ Len(r.a) = 3
-          /\ IA(r.a[2], M(j, "offset"))
+          /\ IsInt(r.a[2]) /\ IsNum(M(j, "offset"))              \* the size of the log, see StableStat
           /\ LET sl == M(j, "slaves") IN
              /\ sl.t = "arr" /\ IsArr(r.a[3]) /\ Len(r.a[3].a) = Len(sl.a)
              /\ \A e \in 1..Len(sl.a) : /\ sl.a[e].t = "obj" /\ sl.a[e].k = <<"ip", "port", "offset">>
                                         /\ IsArr(r.a[3].a[e]) /\ Len(r.a[3].a[e].a) = 3
-                                        /\ \A f \in 1..3 : SA(r.a[3].a[e].a[f], sl.a[e].a[f])
+                                        /\ \A f \in 1..2 : SA(r.a[3].a[e].a[f], sl.a[e].a[f])
+                                        /\ IsBulk(r.a[3].a[e].a[3]) /\ IsStr(sl.a[e].a[3])
      ELSE /\ j.k = <<"role", "host", "port", "state", "offset">> /\ Len(r.a) = 5
-          /\ SA(r.a[2], M(j, "host")) /\ IA(r.a[3], M(j, "port")) /\ SA(r.a[4], M(j, "state")) /\ IA(r.a[5], M(j, "offset"))
+          /\ SA(r.a[2], M(j, "host")) /\ IA(r.a[3], M(j, "port")) /\ SA(r.a[4], M(j, "state")) /\ IsInt(r.a[5]) /\ IsNum(M(j, "offset"))
 
 -----------------------------------------------------------------------------
 (* The command a reply belongs to                                           *)
@@ -322,12 +328,12 @@ RectA(r, g) ==
   /\ LET c == M(g, "coordinates")
          x1 == r.a[1].a[1]  y1 == r.a[1].a[2]  x2 == r.a[2].a[1]  y2 == r.a[2].a[2] IN
      IF M(g, "type").s = "Point"
-     THEN c.t = "arr" /\ Len(c.a) = 2 /\ NA(x1, c.a[1]) /\ NA(y1, c.a[2]) /\ NA(x2, c.a[1]) /\ NA(y2, c.a[2])
+     THEN c.t = "arr" /\ Len(c.a) = 2 /\ CA(x1, c.a[1]) /\ CA(y1, c.a[2]) /\ CA(x2, c.a[1]) /\ CA(y2, c.a[2])
      ELSE /\ M(g, "type").s = "Polygon" /\ c.t = "arr" /\ Len(c.a) = 1 /\ c.a[1].t = "arr" /\ Len(c.a[1].a) = 5
           /\ LET ring == c.a[1].a IN
              /\ \A e \in 1..5 : ring[e].t = "arr" /\ Len(ring[e].a) = 2
-             /\ NA(x1, ring[1].a[1]) /\ NA(y1, ring[1].a[2])
-             /\ NA(x2, ring[3].a[1]) /\ NA(y2, ring[3].a[2])
+             /\ CA(x1, ring[1].a[1]) /\ CA(y1, ring[1].a[2])
+             /\ CA(x2, ring[3].a[1]) /\ CA(y2, ring[3].a[2])
 
 \* the reply to a command that succeeded in JSON mode (ok = true)
 OkAgree(cmd, outer, r, d) ==
